@@ -463,6 +463,46 @@ theorem topKSeq_largest (nk : α → Int) (P : α → Prop)
     rw [← loopX_fst key gt (sortDesc key (xs.take k), []) (xs.drop k)]
     exact h.2.2
 
+/-- Two descending integer lists with the same elements are equal. -/
+theorem desc_perm_eq : ∀ (l₁ l₂ : List Int), l₁.Pairwise (fun a b => b ≤ a) →
+    l₂.Pairwise (fun a b => b ≤ a) → l₁.Perm l₂ → l₁ = l₂
+  | [], l₂, _, _, hp => (List.Perm.nil_eq hp)
+  | a :: l₁, [], _, _, hp => absurd hp.symm.nil_eq (by simp)
+  | a :: l₁, b :: l₂, h₁, h₂, hp => by
+    rw [List.pairwise_cons] at h₁ h₂
+    have hab : a = b := by
+      have ha : a ∈ b :: l₂ := hp.mem_iff.mp (List.mem_cons_self)
+      have hb : b ∈ a :: l₁ := hp.mem_iff.mpr (List.mem_cons_self)
+      rcases List.mem_cons.mp ha with ha | ha
+      · exact ha
+      · rcases List.mem_cons.mp hb with hb | hb
+        · exact hb.symm
+        · have := h₁.1 b hb; have := h₂.1 a ha; omega
+    subst hab
+    rw [desc_perm_eq l₁ l₂ h₁.2 h₂.2 (List.Perm.cons_inv hp)]
+
+/-- A sorted list that is kept + excluded with every excluded key `≤` every kept key has the
+keys of the first entries of the fully sorted input. -/
+theorem keys_eq_sorted_prefix (out excl xs : List α) (hd : Desc key out)
+    (hp : (out ++ excl).Perm xs) (hle : ∀ e ∈ excl, ∀ t ∈ out, key e ≤ key t) :
+    out.map key = ((sortDesc key xs).take out.length).map key := by
+  have h1 : Desc key (out ++ sortDesc key excl) := by
+    unfold Desc
+    rw [List.pairwise_append]
+    refine ⟨hd, sortDesc_desc key excl, ?_⟩
+    intro a ha b hb
+    exact hle b ((mem_sortDesc key).mp hb) a ha
+  have hp' : (out ++ sortDesc key excl).Perm (sortDesc key xs) :=
+    ((List.Perm.refl out).append (sortDesc_perm key excl)).trans (hp.trans (sortDesc_perm key xs).symm)
+  have hmap : ∀ l : List α, Desc key l → (l.map key).Pairwise (fun a b => b ≤ a) := by
+    intro l hl
+    rw [List.pairwise_map]; exact hl
+  have heq := desc_perm_eq _ _ (hmap _ h1) (hmap _ (sortDesc_desc key xs)) (hp'.map key)
+  have h2 : ((out ++ sortDesc key excl).map key).take out.length = out.map key := by
+    rw [List.map_append, List.take_append_of_le_length (by simp)]
+    rw [List.take_of_length_le (by simp)]
+  rw [List.map_take, ← heq, h2]
+
 /-- Candidates after position `k` on which `gt` is never true (NaNs) are ignored. -/
 theorem topKSeq_late_nan (nan : α → Bool) (hn : ∀ a b, nan a = true → gt a b = false)
     (k : Nat) (xs : List α) :
